@@ -70,6 +70,7 @@ fn main() {
     common::main_loop(|kind, args| match kind {
         "tabmem" => tabmem(args),
         "huff" => huff(args),
+        "huffl" => huffl(args),
         "huffsym" => huffsym(args),
         "hufftree" => hufftree(args),
         _ => format!("unknown-kind {kind}"),
@@ -186,6 +187,27 @@ pub fn huff(args: &[&str]) -> String {
     let bits = parse_bits(args[1]);
     let n: usize = args[2].parse().unwrap();
     match CanonicalHuffmanTree::<LittleEndian, u16>::new(&mut code_lengths) {
+        Ok(tree) => decode_with(&tree, &bits, n),
+        Err(e) => kind_of(&e),
+    }
+}
+
+/// huffl <sym:len,sym:len,...> <bits> <n>: `new` on the pairs IN THE ORDER LISTED (each symbol once); the code must not depend on it
+pub fn huffl(args: &[&str]) -> String {
+    let mut pairs: Vec<(u16, u8)> = if args[0] == "-" {
+        vec![]
+    } else {
+        args[0]
+            .split(',')
+            .map(|p| {
+                let (s, l) = p.split_once(':').unwrap();
+                (s.parse().unwrap(), l.parse().unwrap())
+            })
+            .collect()
+    };
+    let bits = parse_bits(args[1]);
+    let n: usize = args[2].parse().unwrap();
+    match CanonicalHuffmanTree::<LittleEndian, u16>::new(&mut pairs) {
         Ok(tree) => decode_with(&tree, &bits, n),
         Err(e) => kind_of(&e),
     }
